@@ -66,7 +66,7 @@ def relation(schema, parent, t):
 
 class OpGen:
     def __init__(self, d, schema, desc, *, max_depth=3, frag_p=0.5, directive_p=0.1, alias_p=0.25,
-                 var_p=0.5, mixins=None, lit_ctx="oplit", local_var_names=False):
+                 var_p=0.5, mixins=None, lit_ctx="oplit", local_var_names=False, root_frag_reroll_p=0.7, root_family_p=0.0):
         self.d = d
         self.schema = schema
         self.desc = desc
@@ -78,6 +78,8 @@ class OpGen:
         self.mixins = mixins or []  # [(module, class)]
         self.lit_ctx = lit_ctx
         self.local_var_names = local_var_names
+        self.root_frag_reroll_p = root_frag_reroll_p
+        self.root_family_p = root_family_p
         self.fragments = {}  # name -> {"type": str, "text": str, "keys": {canon: sig}, "deps": set, "inline": bool}
         self.frag_order = []
         self.frag_use = {}
@@ -189,6 +191,9 @@ class OpGen:
             d.tag("op.abstract_position")
         names = list(fields)
         k = d.int(1, 4) if names else 0
+        if names and self.fragments and d.bool(0.15) and any(
+                self.fragments[f]["type"] == parent.name for f in self.frag_order if f != in_fragment):
+            k = d.int(0, 1)  # a selection set that (almost) only spreads fragments
         chosen = d.sample(names, k) if names else []
         if d.bool(0.12):
             chosen.append("__typename")
@@ -426,7 +431,12 @@ class OpGen:
         roots = (self.desc.query, self.desc.mutation, self.desc.subscription)
         types = []
         abstract = [c for c in self.composites if is_abstract_type(c) and c.name not in roots]
-        if abstract and len(names) >= 2 and d.bool(0.6):
+        if len(names) >= 2 and self.root_family_p and d.bool(self.root_family_p):
+            # fragments on the query root that can spread each other (result classes with base-class chains)
+            for _ in range(d.int(2, min(3, len(names)))):
+                types.append(self.schema.query_type)
+            d.tag("frag.root_family")
+        elif abstract and len(names) >= 2 and d.bool(0.6):
             # family mode: fragments on member objects first, then on the abstract type (which can spread them),
             # the rest anywhere - fragment graphs need related types to be interesting
             fam = d.choice(abstract)
@@ -443,7 +453,7 @@ class OpGen:
             d.tag("frag.family_mode")
         while len(types) < len(names):
             t = d.choice(self.composites)
-            if t.name in roots and d.bool(0.7):
+            if t.name in roots and d.bool(self.root_frag_reroll_p):
                 t = d.choice(self.composites)
             types.append(t)
         for name, t in zip(names, types):
